@@ -36,10 +36,17 @@ pub struct Cfg {
 	/// violations of these properties end the path; others are recorded and exploration continues (empty = all end the path)
 	#[serde(default)]
 	pub verdict_props: Vec<String>,
+	/// violations of these properties also end the path although they are not this check's verdict (they
+	/// corrupt the hold state, so exploring beyond them is meaningless and may not terminate)
+	#[serde(default)]
+	pub cut_props: Vec<String>,
+	/// add a scheduling point after the effect of every raw release
+	#[serde(default)]
+	pub post_release_points: bool,
 }
 impl Default for Cfg {
 	fn default() -> Self {
-		Cfg { max_preemptions: None, retry_rounds: 2, horizon: 400, state_cap: 5_000_000, gran: Gran::RawOp, stop_at_first: true, bfs: false, depth_cap: 0, no_deadlock_report: false, verdict_props: vec![] }
+		Cfg { max_preemptions: None, retry_rounds: 2, horizon: 400, state_cap: 5_000_000, gran: Gran::RawOp, stop_at_first: true, bfs: false, depth_cap: 0, no_deadlock_report: false, verdict_props: vec![], cut_props: vec![], post_release_points: false }
 	}
 }
 
@@ -289,7 +296,7 @@ impl<'p> Search<'p> {
 		if !snap.violations.is_empty() {
 			let mut cut = false;
 			for v in snap.violations {
-				if cfg.verdict_props.is_empty() || cfg.verdict_props.iter().any(|p| p == v.prop) {
+				if cfg.verdict_props.is_empty() || cfg.verdict_props.iter().any(|p| p == v.prop) || cfg.cut_props.iter().any(|p| p == v.prop) {
 					cut = true;
 				}
 				if !self.found.iter().any(|f| f.violation.key == v.key && f.violation.prop == v.prop) {
@@ -402,9 +409,9 @@ impl<'p> Search<'p> {
 	fn run_one(&mut self, pool: &mut Pool, prefix: Vec<(u8, u16)>) {
 		let prog = self.prog;
 		let cfg = self.cfg;
-		let arena = Arena::new();
 		let store = Store::new();
-		let world = World::new(&arena, &store);
+		let arena = Arena::new_in(&store);
+		let world = World::new(arena, &store);
 		let mut targets: Vec<Target<'_>> = vec![];
 		for s in &prog.specs {
 			match world.build(s) {
@@ -421,6 +428,7 @@ impl<'p> Search<'p> {
 		let n = prog.threads.len();
 		let exec = Exec::new(cfg.gran, prog.policy, n, world.is_rw.borrow().clone());
 		exec.lock().lock_unit = world.unit.borrow().clone();
+		exec.lock().post_release_points = cfg.post_release_points;
 		self.stats.executions += 1;
 		if !prefix.is_empty() {
 			self.stats.replays += 1;
@@ -431,7 +439,7 @@ impl<'p> Search<'p> {
 		self.completing = false;
 		self.completion_points = 0;
 		let targets_ref: &[Target<'_>] = &targets;
-		let arena_ref: &Arena = &arena;
+		let arena_ref: &Arena = arena;
 		{
 			let this: &mut Search<'p> = self;
 			// Arena/targets are only read by the decider; raw pointers make the closure Send.
@@ -498,9 +506,9 @@ pub fn explore_with(prog: &Program, cfg: &Cfg, hook: Option<&StateHook>) -> Outc
 
 /// Replay a single schedule with tracing on; returns the trace lines and violations.
 pub fn replay(prog: &Program, cfg: &Cfg, schedule: &[(u8, u16)]) -> Result<(Vec<String>, Vec<Violation>), String> {
-	let arena = Arena::new();
 	let store = Store::new();
-	let world = World::new(&arena, &store);
+	let arena = Arena::new_in(&store);
+	let world = World::new(arena, &store);
 	let mut targets: Vec<Target<'_>> = vec![];
 	for s in &prog.specs {
 		let mut t = world.build(s).ok_or_else(|| format!("target {:?} rejected", s))?;
@@ -510,9 +518,10 @@ pub fn replay(prog: &Program, cfg: &Cfg, schedule: &[(u8, u16)]) -> Result<(Vec<
 	let n = prog.threads.len();
 	let exec: Arc<Exec> = Exec::new(cfg.gran, prog.policy, n, world.is_rw.borrow().clone());
 	exec.lock().lock_unit = world.unit.borrow().clone();
+	exec.lock().post_release_points = cfg.post_release_points;
 	exec.lock().keep_trace = true;
 	let targets_ref: &[Target<'_>] = &targets;
-	let arena_ref: &Arena = &arena;
+	let arena_ref: &Arena = arena;
 	let mut pos = 0usize;
 	let mut err: Option<String> = None;
 	let mut final_lines: Vec<String> = vec![];
@@ -589,9 +598,9 @@ struct ProbeOut {
 }
 
 fn probe(prog: &Program, cfg: &Cfg, prefix: &[(u8, u16)], hook: Option<&StateHook>) -> ProbeOut {
-	let arena = Arena::new();
 	let store = Store::new();
-	let world = World::new(&arena, &store);
+	let arena = Arena::new_in(&store);
+	let world = World::new(arena, &store);
 	let mut targets: Vec<Target<'_>> = vec![];
 	for s in &prog.specs {
 		match world.build(s) {
@@ -605,8 +614,9 @@ fn probe(prog: &Program, cfg: &Cfg, prefix: &[(u8, u16)], hook: Option<&StateHoo
 	let n = prog.threads.len();
 	let exec = Exec::new(cfg.gran, prog.policy, n, world.is_rw.borrow().clone());
 	exec.lock().lock_unit = world.unit.borrow().clone();
+	exec.lock().post_release_points = cfg.post_release_points;
 	let targets_ref: &[Target<'_>] = &targets;
-	let arena_ref: &Arena = &arena;
+	let arena_ref: &Arena = arena;
 	let mut pos = 0usize;
 	let mut out = ProbeOut { snap: None, error: None };
 	{
@@ -704,7 +714,7 @@ pub fn explore_bfs_par(prog: &Program, cfg: &Cfg, hook: Option<&StateHook>) -> O
 			let Some(snap) = r.snap else { continue };
 			let mut cut = false;
 			for v in snap.violations {
-				if cfg.verdict_props.is_empty() || cfg.verdict_props.iter().any(|p| p == v.prop) {
+				if cfg.verdict_props.is_empty() || cfg.verdict_props.iter().any(|p| p == v.prop) || cfg.cut_props.iter().any(|p| p == v.prop) {
 					cut = true;
 				}
 				if !found.iter().any(|f| f.violation.key == v.key && f.violation.prop == v.prop) {
